@@ -20,6 +20,7 @@ EXPLANATION = (
     "the constructor's steps in the constructor's order - fresh containers, register callbacks, attach listeners, recompute "
     "the coroutine flag, choose the engine, start it - and callbacks are validated only once every provider is attached. "
     "Deep independence of user models/listeners is Python's copy protocol and not decided."
+    " Added after seeded batch 9: no process-wide mutable is written on the restore path (a memo there is a channel between the original and its clones)."
 )
 EXPLANATION += (
     " " + '(attach) the machine records in which pass each listener was attached (constructor pass vs. each later add_listener) and the restore replays those passes in order: equal-priority callbacks run in attachment order, so one kind of pass for all saved listeners reproduces only one of the two histories.'
